@@ -126,6 +126,15 @@ def run(c, facts, tier):
                 ok = (in_role or (fn in facts.fns and tuple(facts.fns[fn].module) == mgr_mod)) and consts
                 c.ob("C07.no-narrowing", fn, "char as %s" % ca["to"], ok, "character → byte cast on the record terminator; every terminator passed by the code generator is a literal character < 256: %s (not a user number)" % consts, nontrivial=False)
                 continue
+            # a literal constant converted to a type that holds it (e.g. the shift amount of `1 << 20`, which rustc's overflow check
+            # converts with `20_i32 as u32`) is not a user number and changes no value
+            mc = re.match(r"^const (-?\d+)_[iu](?:8|16|32|64|128|size)$", ca.get("operand") or "")
+            if mc:
+                val = int(mc.group(1))
+                lo, hi = (-(1 << (wt - 1)), (1 << (wt - 1)) - 1) if ca["to"][0] == "i" else (0, (1 << wt) - 1)
+                if lo <= val <= hi:
+                    c.ob("C07.no-narrowing", fn, "%s as %s (constant %d)" % (ca["from"], ca["to"], val), True, "literal constant %d fits %s: no run-time value is converted" % (val, ca["to"]), nontrivial=False)
+                    continue
             ok = wt >= wf and (ca["from"][0] == ca["to"][0] or (ca["from"][0] == "u" and wt > wf))
             c.ob("C07.no-narrowing", fn, "%s as %s" % (ca["from"], ca["to"]), ok, "%s-bit → %s-bit %s" % (wf, wt, "widening" if ok else "NARROWING / sign-changing: a value out of range silently becomes a different number"), witness="-uid 4294967297" if not ok else None)
     c.ob("C07.no-narrowing", "crate", "cast census", True, "%d int casts in crate code examined" % ncast, nontrivial=False)
